@@ -443,7 +443,9 @@ class TxPipeline(Elaboratable):
             # has spooled up enough by the time we're there.
             bitstuff.i_data.eq(shifter.o_data),
 
-            stall.eq(bitstuff.o_stall),
+            # Only stall the shifter for bits of the packet: the shifter free-runs between packets, and a
+            # stuffing stall caused by what it shifted out then must not delay the load of the first byte.
+            stall.eq(bitstuff.o_stall & state_data),
 
             sp_bit.eq(sync_pulse[0]),
             sp_reset_bitstuff.eq(sync_pulse[0]),
